@@ -10,6 +10,8 @@ import (
 	. "verifharness/kobj"
 	"verifharness/sched"
 
+	"sync/atomic"
+
 	"github.com/boz/kcache"
 	"github.com/boz/kcache/filter"
 	metav1 "k8s.io/apimachinery/pkg/apis/meta/v1"
@@ -445,6 +447,60 @@ func runC12(c *Ctx) {
 				t.add(cl, nSub, nil)
 			}
 			t.add(t.root, nMonitor, nil)
+			// callers inside Cache().List() / Get() while the shutdown happens:
+			// each call returns (content or ErrNotRunning), none stays blocked
+			var readersLeft atomic.Int32
+			for rdr := 0; rdr < 4; rdr++ {
+				readersLeft.Add(1)
+				go func(rdr int) {
+					defer readersLeft.Add(-1)
+					for {
+						var err error
+						if rdr%2 == 0 {
+							_, err = ct.c.Cache().List()
+						} else {
+							_, err = ct.c.Cache().Get(Str(1), Str(1))
+						}
+						if err != nil {
+							return
+						}
+						time.Sleep(time.Millisecond)
+					}
+				}(rdr)
+			}
+			// ... and callers of Subscribe / Clone / NewMonitor: a result or ErrNotRunning
+			for rdr := 0; rdr < 3; rdr++ {
+				readersLeft.Add(1)
+				go func(rdr int) {
+					defer readersLeft.Add(-1)
+					for {
+						switch rdr {
+						case 0:
+							sub, err := ct.c.Subscribe()
+							if err != nil {
+								return
+							}
+							sub.Close()
+						case 1:
+							cl2, err := ct.c.Clone()
+							if err != nil {
+								return
+							}
+							cl2.Close()
+						default:
+							m, err := kcache.NewMonitor(ct.c, kcache.BuildHandler().Create())
+							if err != nil {
+								return
+							}
+							m.Close()
+						}
+						if isClosed(ct.c.Done()) {
+							return
+						}
+						time.Sleep(5 * time.Millisecond)
+					}
+				}(rdr)
+			}
 			time.Sleep(at)
 			if mode == "stream-dropped" || mode == "stream-dropped-twice" {
 				// Close() after the watcher has reconnected (and while it waits to)
@@ -484,6 +540,14 @@ func runC12(c *Ctx) {
 			}
 			if !isClosed(ct.c.Done()) {
 				problems = append(problems, fmt.Sprintf("Done() is not closed (%s, closed %v after start)", mode, at))
+			} else {
+				// every caller's pause between two calls (<= 5ms) is over
+				time.Sleep(12 * time.Millisecond)
+				sched.Settle()
+				if n := readersLeft.Load(); n > 0 {
+					stuck = sched.LibraryStacks()
+					problems = append(problems, fmt.Sprintf("%d callers of Cache().List()/Get()/Subscribe()/Clone()/NewMonitor() are still blocked after Done() closed (%s, closed %v after start)", n, mode, at))
+				}
 			}
 			for _, n := range t.nodes {
 				if n.readerEnd != nil {
@@ -511,5 +575,5 @@ func runC12(c *Ctx) {
 		c.Case(enc.L(enc.I(13), enc.I(0)))
 	}
 	reentrantCloses(c, "C12")
-	c.Rep.Rule = "trees as in C11 on a real controller in virtual time under perturbation; shutdown triggers {Close, 3 concurrent Close, context cancel, list error} fired at every step index of a running workload (shutdown-point enumeration), plus Close swept over time while a list is slow, the watch connect hangs until cancelled or always fails, and after the server dropped the watch stream (after the reconnect, and inside the retry delay), while a list outlasts the refresh period (tick pending), and Close / context cancel while the controller is applying a list (initial and relist; slow filter) (mid-relist / mid-reconnect). Oracles: Close() returns and Done() closes at once in virtual time (synctest's deadlock detection is the oracle for 'does not hang'); after the root is done the inventory of goroutines with library frames is back to its value before the scenario; every API call {Subscribe*, Clone*, Refilter, Cache().List/Get, Close} on every stopped node returns a result or ErrNotRunning instead of blocking. Plus a monitor closed from inside each of its own callbacks (re-entrant Close). Non-trivial = every scenario."
+	c.Rep.Rule = "trees as in C11 on a real controller in virtual time under perturbation; shutdown triggers {Close, 3 concurrent Close, context cancel, list error} fired at every step index of a running workload (shutdown-point enumeration), plus Close swept over time while a list is slow, the watch connect hangs until cancelled or always fails, and after the server dropped the watch stream (after the reconnect, and inside the retry delay), while a list outlasts the refresh period (tick pending), and Close / context cancel while the controller is applying a list (initial and relist; slow filter) (mid-relist / mid-reconnect). Oracles: Close() returns and Done() closes at once in virtual time (synctest's deadlock detection is the oracle for 'does not hang'); after the root is done the inventory of goroutines with library frames is back to its value before the scenario; every API call {Subscribe*, Clone*, Refilter, Cache().List/Get, Close} on every stopped node returns a result or ErrNotRunning instead of blocking. Plus a monitor closed from inside each of its own callbacks (re-entrant Close). In the Close sweep seven goroutines call Cache().List()/Get() and Subscribe()/Clone()/NewMonitor() in a loop across the shutdown: none stays blocked. Non-trivial = every scenario."
 }
